@@ -98,6 +98,8 @@ def strategy(tier):
             case["extra"] = [[r, w] for r, w in extra]
             case["clone"] = draw(st.sampled_from(("copy", "pickle", "twin")))
             case["op"] = draw(st.sampled_from(("fill", "iadd")))
+            # the objects may be JSON reloads (immutable: they can still be merged into)
+            case["reloaded"] = draw(st.integers(0, 3)) == 0
         elif mode == "arbitrary":
             spec2 = draw(gen.tree_specs(opts))
             s2, _ = draw(gen.streams(spec2, max_rows=6))
@@ -230,7 +232,12 @@ def check(case):  # noqa: PLR0912, PLR0915
 
         if mode == "history":
             # == must answer for the state the operands are in *now*, whatever was compared before
-            b = {"copy": lambda: a.copy(), "pickle": lambda: pickle.loads(pickle.dumps(a)), "twin": lambda: fill(build(spec), stream)}[case["clone"]]()
+            if case.get("reloaded"):
+                case = dict(case, op="iadd")
+                a = hg.Factory.fromJson(a.toJson())
+                labels.append("reloaded")
+            b = {"copy": lambda: a.copy(), "pickle": lambda: pickle.loads(pickle.dumps(a)),
+                 "twin": lambda: hg.Factory.fromJson(a.toJson()) if case.get("reloaded") else fill(build(spec), stream)}[case["clone"]]()
             twin = case["clone"] == "twin"  # separately built quantities may legitimately make == stricter
             what = f"history:{case['clone']}:{case['op']}"
             e = eq3(a, b, what + " before")
@@ -256,6 +263,7 @@ def check(case):  # noqa: PLR0912, PLR0915
             e = eq3(a, b, what + " after mutating b")
             require(not e or R, "equal-but-different", lambda: f"{what}: after b was compared with a and then changed by {case['op']}, a == b is True although content differs: {norm.fmt(norm.diff(da, db, norm.BITEXACT))}", {"mode": "history"})
             a = mutate(a)
+            positives(a, f"after == and then {case['op']} (the original)")
             da = ndoc(a)
             R2 = norm.same(da, db, norm.BITEXACT)
             e = eq3(a, b, what + " after mutating both")
